@@ -42,6 +42,11 @@ fn main() {
     }
     let get = |k: &str, d: u64| kv.get(k).map(|v| v.parse::<u64>().unwrap_or(d)).unwrap_or(d);
 
+    // stream=0|1 forces the transport of typed connections (frames handed over vs. length-prefixed byte stream)
+    if let Some(v) = kv.get("stream") {
+        // SAFETY: single-threaded at this point
+        unsafe { std::env::set_var("VERIF_STREAM", v) };
+    }
     install_panic_hook();
     prewarm();
     let mut w: Box<dyn Write> = match &out {
